@@ -136,8 +136,8 @@ def tables_bijection(kres):
 POST = {"C16": tables_bijection, "C04": tables_bijection}
 for _g in _GROUPS:
     KANI["k_tables_axioms_%s" % _g] = dict(
-        props=["C16"], kind="complete", fn="ITA oracle table for %s (harness constants)" % _g,
-        what="the oracle table of %s contains the identity, is closed under composition and inverses modulo lattice translations, has no repeated entry, every linear part has determinant +-1, and has the group's mirror/glide/two-fold content" % _g)
+        props=["C16", "C08"], kind="complete", fn="ITA oracle table for %s (harness constants)" % _g,
+        what="the oracle table of %s contains the identity, is closed under composition and inverses modulo lattice translations, has no repeated entry, every linear part has determinant +-1, and has the group's mirror/glide/two-fold content; and (C08) at the initial site position p = -1/2 + 1/(2N) all copies and their lattice images are more than 1/(2N) apart in fractional units" % _g)
 POST_COUNT = {"C16": len(_GROUPS), "C04": len(_GROUPS)}
 
 PROPS["C16"] = dict(
@@ -270,7 +270,7 @@ PROPS["C03"] = dict(
                "convergence error of the truncated sum for the uncut potential", "invariance of the total under re-description of the crystal is argued from the formula, not proved as a two-state theorem"],
 )
 PROPS["C08"] = dict(
-    level="proof", units=["opt", "state", "geom"], kani=["k_basis_set_reset", "k_cell_dof", "k_cell_from_family", "k_site_basis", "k_clone_cell", "k_clone_site", "k_opt_accept_any_kt"] + ["k_tables_label_%s" % g for g in _GROUPS], lemmas=[],
+    level="proof", units=["opt", "state", "geom"], kani=["k_basis_set_reset", "k_cell_dof", "k_cell_from_family", "k_site_basis", "k_clone_cell", "k_clone_site", "k_opt_accept_any_kt"] + ["k_tables_label_%s" % g for g in _GROUPS] + ["k_tables_axioms_%s" % g for g in _GROUPS], lemmas=[],
     explanation="Verus proves on the real get_degrees_of_freedom / get_basis / generate_basis (both state kinds) that a valid state yields at least one handle, each with the bounds of the property statement "
                 "([0.01, length], [0.1, ratio], [pi/6, pi/2] only for oblique cells, [-1/2,1/2], [0, 2pi/rot]) and the current value inside them; on the real optimiser loop that bounds never change and every value stays inside "
                 "its bounds at every step and at both exits (inv.wf, exit*.held), and that the final assert (defined score) cannot fail. Kani proves the same bounds, the frame (a parameter without a handle keeps its bits: the cell stays in its family) "
